@@ -209,8 +209,8 @@ def ruleToday(ts: datetime, _: RegexMatch) -> Time:
 
 
 @rule(
-    r"(genau\s*)?jetzt|diesen moment|in diesem moment|gerade eben|"
-    r"((just|right)\s*)?now|immediately"
+    r"(\bgenau\s*)?jetzt|diesen moment|in diesem moment|gerade eben|"
+    r"(\b(just|right)\s*)?now|immediately"
 )
 def ruleNow(ts: datetime, _: RegexMatch) -> Time:
     return Time(
@@ -498,7 +498,7 @@ def ruleHHOClock(ts: datetime, m: RegexMatch) -> Time:
     return Time(hour=int(m.match.group("hour")))
 
 
-@rule(r"(a |one )?quarter( to| till| before| of)|vie?rtel vor", predicate("isTOD"))
+@rule(r"(\b(a|one) )?quarter( to| till| before| of)|vie?rtel vor", predicate("isTOD"))
 def ruleQuarterBeforeHH(ts: datetime, _: RegexMatch, t: Time) -> Optional[Time]:
     # no quarter past hh:mm where mm is not 0 or missing
     if t.minute:
@@ -509,7 +509,7 @@ def ruleQuarterBeforeHH(ts: datetime, _: RegexMatch, t: Time) -> Optional[Time]:
         return Time(hour=23, minute=45)
 
 
-@rule(r"((a |one )?quarter( after| past)|vie?rtel nach)", predicate("isTOD"))
+@rule(r"((\b(a|one) )?quarter( after| past)|vie?rtel nach)", predicate("isTOD"))
 def ruleQuarterAfterHH(ts: datetime, _: RegexMatch, t: Time) -> Optional[Time]:
     if t.minute:
         return None
